@@ -13,7 +13,7 @@ RULE = ('C01 workloads plus 1-3 termination requests (terminate(reason) / Agent.
         'A fifth of the runs open two contacts between the same two agents and call Agent.shutdown() (or terminate() on one contact) while transfers run on the other; no faults there, so every started transfer must complete, every terminated contact must exchange SESS_TERM and close, and a contact that was not terminated must stay open; in half of the terminate-one-contact runs Agent.shutdown() follows 0-1 s later (the contact may still be ending), and a shutdown that arrives while a contact is still negotiating must leave nothing open. Non-trivial: a SESS_TERM, close or fault actually occurred; distinct = distinct event-history digests.')
 COMPONENTS = tc.COMPONENTS
 PROBES = ('wire.SESS_TERM', 'probe.term_mid_transfer', 'probe.simultaneous_term', 'probe.term_before_established',
-          'probe.unstarted_at_term', 'fault.reset', 'fault.kill', 'fault.blackhole', 'fault.stall', 'tcp.short_write', 'engine.multi_contact', 'fault.spurious_readable', 'probe.shutdown_while_ending')
+          'probe.unstarted_at_term', 'fault.reset', 'fault.kill', 'fault.blackhole', 'fault.stall', 'tcp.short_write', 'engine.multi_contact', 'fault.spurious_readable', 'probe.shutdown_while_ending', 'probe.agent_stop')
 ASSUMPTIONS = ['as C01', 'bounded liveness: both contacts closed within the 60 s horizon (which exceeds every stall and idle time drawn)']
 CHUNK = 10
 
@@ -28,7 +28,7 @@ def _gen_multi(ch):
         seg = min(cfg[side]['segment_size_tx_initial'], cfg['P' if side == 'A' else 'A']['segment_size_mru'])
         size = min(ch.choice('s.len', (1, 500, 5000, 40000, 150000)), 150 * seg)
         sends.append(dict(t=3000 + 1000 * ch.pick('s.t', 40), side=side, cx=ch.pick('s.cx', 2), len=size, tag=ix + 1))
-    term = dict(side=ch.choice('t.side', ('A', 'P')), kind=ch.choice('t.kind', ('shutdown', 'shutdown', 'terminate0', 'terminate1')))
+    term = dict(side=ch.choice('t.side', ('A', 'P')), kind=ch.choice('t.kind', ('shutdown', 'shutdown', 'terminate0', 'terminate1', 'stop')))
     if ch.coin('t.trig', 2, 3):
         term['after'] = ['tcp-send', ch.choice('t.ts', ('A', 'P')), 6 + ch.pick('t.nth', 40)]
         term['delay'] = ch.choice('t.delay', (0, 30, 300))
@@ -91,14 +91,14 @@ def _execute_multi(plan, sched, verbose):
         # terminating a session that is not yet established raises (E1 counts that as probe.term_before_established)
         est = set(evt[4] for evt in wld.hist if evt[3] == 'dbus-signal' and evt[2] == item['side'] and evt[5] == 'session_state_changed' and evt[7][0] == 'established')
         term_seq['all_established'] = len(har.opened[item['side']]) >= 2 and all(path in est for path in har.opened[item['side']][:2])
-        if item['kind'] == 'shutdown':
-            har.call(item['side'], tcpcl_pair.AGENT_PATH, 'shutdown')
+        if item['kind'] in ('shutdown', 'stop'):
+            har.call(item['side'], tcpcl_pair.AGENT_PATH, item['kind'])
         else:
             paths = har.opened[item['side']]
             cx = int(item['kind'][-1])
             if len(paths) > cx:
                 har.call(item['side'], paths[cx], 'terminate', 0)
-            if item.get('then_shutdown') is not None:
+            if item.get('then_shutdown') is not None and item['kind'] != 'stop':
                 wld.at(wld.now + item['then_shutdown'], shutdown_after, item)
 
     def shutdown_after(item):
@@ -124,6 +124,16 @@ def _execute_multi(plan, sched, verbose):
             sigs.setdefault((evt[2], evt[4], evt[5]), []).append((evt[0], evt[7]))
     if 'seq' not in term_seq or len(har.opened['A']) < 2 or len(har.opened['P']) < 2:
         run.stats['multi.not_reached'] = 1
+        return run
+    if plan['term']['kind'] == 'stop':
+        # Agent.stop(): immediate, no SESS_TERM exchange is owed, but every session of that agent is disconnected - and the peer, seeing
+        # the disconnect, closes its ends too
+        run.stats['probe.agent_stop'] = 1
+        tside = plan['term']['side']
+        for side in ('A', 'P'):
+            for (cx, path) in enumerate(har.opened[side]):
+                if path not in har.closed[side]:
+                    run.viols.append(('close', 'half-open-after-stop' + ('' if side == tside else '-peer'), '%s still holds contact %d open at the end of the run although the agent of %s was stopped' % (side, cx, tside)))
         return run
     if not term_seq.get('all_established'):
         run.stats['probe.term_before_established'] = 1
